@@ -112,13 +112,21 @@ def check(run):
                           desc={"a": pr["a"], "b": pr["b"]},
                           nontrivial=bool(pr["a"]) and bool(pr["b"])))
     base = len(cases)
+    # size sweep: every file size 1..300 as an added file and as a same-size change (every residue of the
+    # 128-byte block alignment), plus the 32000 marker neighbourhood
+    for ln in list(range(1, 301)) + [31999, 32000, 32001]:
+        a = {"dirs": [], "files": [{"p": list(b"s/chg.bin"), "c": [[7, ln]]}, {"p": list(b"keep"), "c": [[5, 3]]}]}
+        b = {"dirs": [], "files": [{"p": list(b"s/chg.bin"), "c": [[7, ln - 1], [8, 1]] if ln > 1 else [[8, 1]]},
+                                   {"p": list(b"s/add.bin"), "c": [[9, ln]]}, {"p": list(b"keep"), "c": [[5, 3]]}]}
+        cases.append(Case([{"op": "patch.create", "case": base, "a": a, "b": b}], desc={"size-sweep": ln}))
+        base += 1
     nr = 150 if run.tier == "quick" else 1500
     for i in range(nr):
         a, b = random_pair(rng, run.tier == "thorough" and i % 10 == 0)
         cases.append(Case([{"op": "patch.create", "case": base + i, "a": a, "b": b}],
                           desc={"random pair": [len(a["files"]), len(b["files"])]}))
     run.rule = ("every pair of trees over 4 paths (nesting 0..2) with per-path content absent/empty/c1(/c2) enumerated by TLC "
-                "(quick 6561, thorough 65536 pairs) plus seeded random pairs (nesting 0..4, 1..40 files, sizes clustered at "
+                "(quick: 3 paths, 4096 pairs; thorough: 4 paths, 65536 pairs; contents absent/empty/c/c' with |c| = |c'|), a size sweep 1..300 (added + same-size change) plus seeded random pairs (nesting 0..4, 1..40 files, sizes clustered at "
                 "127/128/129, 143/144, 31999/32000/32001, 65535/65536, thorough up to 400 KB); each case: real create, independent "
                 "decode, real apply on a copy; distinct by trees, non-trivial when both trees have files")
     run.exhaustive = True
